@@ -104,5 +104,19 @@ func checkDefs() map[string]CheckDef {
 		BoundsText: "BigInt codec: every byte length 0..129 (limit 128 exact), symbolic content; pairs of big integers up to K bytes each; value types: Balances (0..2 x 1..2), SubAlloc (0..2 balances; index map nil/0..2), Allocation/State (1 asset [2 thorough], 1..2 participants, 0..1 sub-allocations [2 thorough] with nil/empty/full index map, NoApp or MockApp with symbolic definition and data), Params (2..3 participants, symbolic addresses/nonce/duration/flags/aux bytes), Transaction (absent state or any subset of 64-byte signatures), wallet and wire address map arrays (0..2 entries); all 17 message types through wire.EncodeMsg/DecodeMsg with 3 arbitrary trailing bytes, strings of 0..2 bytes, AuthResponse signatures 0..3 bytes; two envelopes back to back through the perunio envelope serializer; all 17 message types through the protobuf envelope serializer, compared field by field and re-encoded natively. Amounts exactly 1 byte in quick, 0..1 bytes in thorough (every length is covered by the BigInt obligations).",
 		Outside:    []string{"proto.Marshal/Unmarshal", "larger dimensions", "participants with several addresses per map"},
 	})
+	add(CheckDef{
+		ID: "C13",
+		Obligations: []Obligation{
+			{Pkg: "internal/verifh/c13", Harness: "VerifC13Buffer", Quick: map[string]int{"L": 6, "symLenK": 9}, Thor: map[string]int{"L": 10, "symLenK": 11}, TV: 15},
+			{Pkg: "internal/verifh/c13", Harness: "VerifC13Window", Quick: map[string]int{"W": 4, "stride": 4, "symLenK": 9}, Thor: map[string]int{"allTemplates": 1}, TV: 15},
+			{Pkg: "internal/verifh/c13", Harness: "VerifC13PB", Quick: map[string]int{"maxSites": 70}, TV: 60},
+		},
+		Assumptions: append(append([]string{}, commonAssumptions...), pbAssume,
+			"allocation bound: a decoder may pass at most 65536 to make before it has read the elements (the largest count a 16-bit length field can declare); natively the bound is confirmed through the bytes allocated by the decoder",
+			"window model: templates are concrete valid encodings (1 asset, 2 participants, 1 sub-allocation with index map, MockApp registered); the window content and an optional truncation point are arbitrary",
+			"protobuf model: well-formed generated structs with exactly one deviation (a nil sub-message, a repeated field with one element more or less, a byte field that is absent, one byte long or one byte too long, an arbitrary backend key, an arbitrary app definition); leaves are concrete except at the deviation"),
+		BoundsText: "buffer model: each of 20 decoder entry points (perunio BigInt/string/scalars, Balances, SubAlloc, Allocation, State, Params, Transaction, wallet and wire address maps and arrays, Sig, SparseSigs for 0..3 slots, OptApp, OptAppAndData, wire.DecodeMsg, perunio envelope serializer) on a fully symbolic buffer of every length 0..L (L=6 quick, 10 thorough); declared counts are read back from the buffer and compared with the documented limits on success; window model: W=4 arbitrary bytes at every 4-aligned offset of a valid encoding, optionally truncated inside or right after the window (quick: State, Params, Envelope, AuthResponse, LedgerChannelProposalAcc, ChannelUpdateAcc; thorough: all 18 templates incl. all composite messages); protobuf: 8 message kinds x up to 70 deviation sites through the real serializer.Decode",
+		Outside:    []string{"proto.Unmarshal itself", "two simultaneous deviations in one protobuf message", "windows wider than 4 bytes", "memory exhaustion below the allocation bound"},
+	})
 	return defs
 }
